@@ -12,7 +12,9 @@ import (
 
 // MuxAgent mimics an ApplicationAgent to be used as a multiplexer for different ApplicationAgents.
 type MuxAgent struct {
-	sync.Mutex
+	// The read lock is held while messages are handed to the children, which might block; lookups of the endpoints
+	// from within such a hand-over (e.g., a child's reply entering the router) must not wait for it.
+	sync.RWMutex
 
 	receiver chan Message
 	sender   chan Message
@@ -36,13 +38,13 @@ func (mux *MuxAgent) handle() {
 	defer close(mux.sender)
 
 	for msg := range mux.receiver {
-		mux.Lock()
+		mux.RLock()
 		for _, child := range mux.children {
 			if rec := msg.Recipients(); rec == nil || AppAgentContainsEndpoint(child, rec) {
 				child.MessageReceiver() <- msg
 			}
 		}
-		mux.Unlock()
+		mux.RUnlock()
 
 		if _, isShutdown := msg.(ShutdownMessage); isShutdown {
 			return
@@ -89,8 +91,8 @@ func (mux *MuxAgent) unregister(agent ApplicationAgent) {
 }
 
 func (mux *MuxAgent) Endpoints() (endpoints []bpv7.EndpointID) {
-	mux.Lock()
-	defer mux.Unlock()
+	mux.RLock()
+	defer mux.RUnlock()
 
 	for _, child := range mux.children {
 		endpoints = append(endpoints, child.Endpoints()...)
